@@ -376,6 +376,13 @@ def domain_guards(prog: Program, rep) -> None:
             if not (isinstance(node, ast.Call) and (dotted(node.func) or "") in ("np.min", "np.max", "min", "max", "np.amin", "np.amax") and len(node.args) == 1):
                 continue
             a = node.args[0]
+            if isinstance(a, ast.Name):
+                # a temporary holding the selection (`positive = vals[vals > 0]; np.min(positive)`)
+                ff = ff or facts_for(fi)
+                si0 = ff.stmt_of(node)
+                ra = ff.resolved(si0.stmt, a) if si0 is not None else a
+                if isinstance(ra, ast.Subscript) and isinstance(ra.slice, ast.Compare):
+                    a = ra
             if not (isinstance(a, ast.Subscript) and isinstance(a.slice, ast.Compare)):
                 continue
             n += 1
